@@ -1,10 +1,27 @@
 #!/bin/bash
-# merge an agent branch, regenerating the generated glue files on conflict
+# merge an agent branch; generated glue files are regenerated; known_findings.json entries are unioned
 cd /verif
-git merge "$1" -m "merge $1" 2>&1 | tail -2
+if ! git diff --quiet || ! git diff --cached --quiet; then
+  if git diff --name-only --diff-filter=U | grep -q .; then :; else git add -A; git commit -qm "wip before merging $1"; fi
+fi
+git merge "$1" -m "merge $1" > /tmp/merge_out.txt 2>&1; tail -2 /tmp/merge_out.txt
 for f in lean/PanqecVerif.lean lean/Driver/Main.lean; do
   if git diff --name-only --diff-filter=U | grep -q "^$f$"; then git checkout --ours "$f"; fi
 done
-if git diff --name-only --diff-filter=U | grep -q .; then echo "REMAINING CONFLICTS:"; git diff --name-only --diff-filter=U; fi
+if git diff --name-only --diff-filter=U | grep -q "^known_findings.json$"; then
+  git checkout --ours known_findings.json
+fi
+git show "$1":known_findings.json > /tmp/kf_theirs.json 2>/dev/null && python3 - <<'PY'
+import json
+ours=json.load(open('/verif/known_findings.json')); theirs=json.load(open('/tmp/kf_theirs.json'))
+have={(e['property'],e['what']) for e in ours['findings']}
+havefix={(e['property'],e.get('commit')) for e in ours['findings'] if e['kind']=='fixed'}
+for e in theirs['findings']:
+    if (e['property'],e['what']) in have: continue
+    if e['kind']=='fixed' and (e['property'],e.get('commit')) in havefix: continue
+    ours['findings'].append(e); print('  + finding entry:', e['kind'], e['property'], e['what'][:90])
+json.dump(ours,open('/verif/known_findings.json','w'),indent=1)
+PY
+if git diff --name-only --diff-filter=U | grep -q .; then echo "REMAINING CONFLICTS:"; git diff --name-only --diff-filter=U; exit 1; fi
 python3 gen_root.py
 git add -A && git commit -qm "merge $1 (glue regenerated)" && echo merged
